@@ -69,7 +69,13 @@ def run(ctx):
         if kw not in derived.NINE:
             continue          # a helper macro of the file: it has no R7RS meaning of its own; it is expanded inside the forms that use it
         atomic = [v for v, role in rm.items() if role == "KEY"] if kw == "case" and idx > 0 else []
-        bad, n = semantics.compare_rule(mf, r, rm, atomic, ks=(1, 2) if ctx.tier == "quick" else (1, 2, 3))
+        try:
+            bad, n = semantics.compare_rule(mf, r, rm, atomic, ks=(1, 2) if ctx.tier == "quick" else (1, 2, 3))
+        except Exception as e:
+            # a rule whose uses the reference semantics has no reading for (a form R7RS spells otherwise, an extension)
+            ctx.undecided("C05-semantics", "%s/%s" % (kw, derived.rid(r)), "the schematic uses of rule %d of %s have no reading in the reference "
+                          "semantics (%s: %s)" % (idx, kw, type(e).__name__, str(e)[:80]), derived.GRAMMAR)
+            continue
         total += n
         ctx.inst("C05-semantics", "%s#%d" % (kw, idx), {"cases": n, "disagreements": len(bad)})
         for b in bad[:1]:
